@@ -167,9 +167,10 @@ def _run(wd, cfg, dot, timeout, workers):
 
 
 # ---- the scenario families -------------------------------------------------------------------------------
-def families(bkind, ckind, rng, extra=0, layers=3):
+def families(bkind, ckind, rng, extra=0, layers=3, blob=False):
     """-> list of (family name, script).  bkind / ckind are the concrete kinds; what a kind does not offer
-    (undo on a mapping storage) is left out, so that every script runs to its end."""
+    (undo on a mapping storage) is left out, so that every script runs to its end.
+    blob: oid 0 is a blob (every store of it is a storeBlob, also while the base is built)."""
     cfile = dd.KINDS[ckind] == 'file'
     bfile = dd.KINDS[bkind] == 'file'
     out = []
@@ -253,10 +254,12 @@ def families(bkind, ckind, rng, extra=0, layers=3):
             + commit([(1, 'v1')], 3))
     add('clock', commit([(0, 'v1')], 1) + commit([(0, 'v2')], 1) + PUSH + commit([(0, 'v1')], 1) + commit([(0, 'v2')], 2))
     # G. pack through the demo storage (what each flavour makes of the gc argument)
-    for g in ('none', 'false', 'true'):
+    # (not on own changes that hold blobs: they end up wrapped in a BlobStorage, whose pack() takes no gc argument
+    #  and removes blob files by its own rule - F15, C13)
+    for g in ('none', 'false', 'true') if not (blob and ckind == 'temp') else ():
         add('pack', commit([(0, 'v1'), (1, 'v1')], 1) + PUSH + commit([(0, 'v2'), (1, 'v2')], 2) + commit([(1, 'v1')], 3)
             + pack(3, g) + commit([(0, 'v1')], 4) + pack(2, g))
-    if ckind == 'temp':
+    if ckind == 'temp' and not blob:
         # the demo storage's own changes are packed with garbage collection unless gc=False is passed:
         # references that lead into the base / a root that lives in the base only
         for g in ('none', 'true', 'false'):
@@ -266,6 +269,21 @@ def families(bkind, ckind, rng, extra=0, layers=3):
             add('pack-gc', base + PUSH + commit([(1, 'v2')], 2) + commit([(1, 'v1')], 3) + pack(2, g) + commit([(0, 'v2', CUR, (1,))], 4))
             add('pack-gc', base + PUSH + commit([(0, 'v2', CUR, (1,)), (1, 'v2')], 2) + commit([(1, 'v1')], 3) + pack(3, g)
                 + commit([(1, 'v2')], 4))
+    if blob:
+        # storeBlob with a serial that is not the current one of base \o changes
+        two = commit([(0, 'v1'), (1, 'v1')], 1) + commit([(0, 'v2')], 2)
+        # ... naming an older base revision, the object still lives in the base only: aborted / committed
+        add('blob', two + PUSH + failing(store(0, 'v1', T(1)), 3) + commit([(0, 'v1')], 3))
+        add('blob', two + PUSH + commit([(0, 'v1', T(1))], 3) + commit([(0, 'v2')], 4))
+        # ... naming no revision at all ("new object") although the base holds the object
+        add('blob', commit([(0, 'v1')], 1) + PUSH + commit([(0, 'v2', 0)], 2) + commit([(0, 'v1')], 3))
+        # ... once the object is in the changes the changes storage objects: base serial, changes serial, none
+        add('blob', two + PUSH + commit([(0, 'v1')], 3) + failing(store(0, 'v2', T(2)), 4) + failing(store(0, 'v2', T(1)), 4)
+            + commit([(0, 'v2')], 4) + failing(store(0, 'v1', T(3)), 5) + failing(store(0, 'v1', 0), 5) + commit([(0, 'v1')], 5))
+        # ... through a pushed demo storage: its changes are empty, the object lives two layers down
+        if layers >= 3:
+            add('blob', two + PUSH + commit([(0, 'v1')], 3) + PUSH + failing(store(0, 'v2', T(2)), 4) + commit([(0, 'v2', T(3))], 4)
+                + commit([(0, 'v1')], 5) + POP + commit([(0, 'v2')], 6))
     # H. refused calls and aborts leave no trace
     add('abort', commit([(0, 'v1')], 1) + PUSH + begin(2) + store(0, 'v2') + store(1, 'v1', 0) + wrong('store') + wrong('vote')
         + wrong('finish') + wrong('abort') + wrong('checkCurrent') + (wrong('undo') if cfile else []) + [{'a': 'vote'}, {'a': 'abort'}]
